@@ -22,9 +22,9 @@ w("C05", {"quick": c05(), "thorough": c05(),
  "outside": ["multi-step histories (covered by C04's model)", "auth fids (QTAUTH) for I/O: the statement is silent"],
  "assumptions": ["three-valued reference rule harness/c05_rules.go:refRule transcribed from the statement; 'either' cases (OEXEC/OCEXEC corners, reads through unopened fids, create of a directory with mode != OREAD) produce no assertion", SCHED]})
 
-def reset_run(wn, P):
-    return {"harness": "vxH03Reset", "args": [str(wn)], "files": KIT + ["reset_c03"], "preempt": P, "race": False, "reach": ["done"], "timeout_s": 1500,
-            "bounds": f"a Tversion in mid-session while one request is held in the implementation, {wn} more wait behind it under the same tag and one under another tag; the held request returns after the Rversion; then attach and three requests reusing the old tags; <= {P} preemptions (race detector off: a mid-session Tversion is outside C19's workloads)"}
+def reset_run(wn, P, late=False):
+    return {"harness": "vxH03Reset", "args": [str(wn), "true" if late else "false"], "files": KIT + ["reset_c03"], "preempt": P, "race": False, "reach": ["done"], "timeout_s": 1500,
+            "bounds": f"a Tversion in mid-session while one request is held in the implementation, {wn} more wait behind it under the same tag and one under another tag; the held request returns after the Rversion; then attach and {'a new two-member group under the old tag while the aborted request is still executing' if late else 'three requests reusing the old tags'}; <= {P} preemptions (race detector off: a mid-session Tversion is outside C19's workloads)"}
 
 # ---------------- C03 ----------------
 def c03(e2e):
@@ -37,6 +37,9 @@ def c03(e2e):
                      "bounds": f"{n} Treads outstanding at once (more than the 64 spare reply buffers a connection keeps), all held in the implementation and then released; deterministic schedule"})
     for wn, P in (((1, 1), (2, 0)) if len(e2e) <= 4 else ((0, 2), (1, 2), (2, 1), (3, 1))):
         runs.append(reset_run(wn, P))
+    runs.append(reset_run(1, 1, True))
+    runs.append({"harness": "vxH03Recycle", "args": [], "files": KIT + ["recycle_c03"], "preempt": 1 if len(e2e) <= 4 else 2, "race": False, "reach": ["done"], "timeout_s": 1500,
+                 "bounds": "a Tread cancelled through a cancelling FlushOp while held in an implementation that fills the reply buffer in place (as Ufs.Read does) and returns before or after the next request arrives; the two following Treads carry exactly their own content; preemption-bounded schedules (race detector off: the implementation's late in-place fill is unordered with the flusher by construction)"})
     for (n, maxpend, outcome, oneseg, P) in e2e:
         # two goroutines of the implementation answering at once necessarily write the reply buffer concurrently:
         # that workload is outside C19, so the race detector is off for it
